@@ -2,6 +2,7 @@ import EinoV.Oracle.C20Parse
 import EinoV.Expected.C20
 import EinoV.Oracle.C20Decl
 import EinoV.Oracle.C20Keys
+import EinoV.Oracle.C20Static
 
 namespace EinoV.Oracle.C20
 open Lean EinoV EinoV.Build EinoV.Oracle.C20Parse
@@ -12,6 +13,7 @@ open Lean EinoV EinoV.Build EinoV.Oracle.C20Parse
     on the two addBranch facts that belong to C07 (such cases are compared by C07 only). -/
 def handle (c : Json) : JE Json := do
   if J.strD c "stream" "" == "decl" then return (← C20Decl.handle c)
+  if J.strD c "stream" "" == "static" then return (← C20Static.handle c)
   if C20Keys.hasKeys c then return (← C20Keys.handleKeyed c)
   let cs ← parseCase c
   let f := Expected.C20.facts
